@@ -305,7 +305,7 @@ def run(ctx: core.Ctx):
                     impl_x = coq_result(sr.get("cols"), sr.get("rows")) if not sr.get("error") else "None"
                 except rel.NotExportable:
                     continue
-                items.append(f"({CTOR[x]}, mkECase {base} {exported} {impl_x} {dref})")
+                items.append(f"({CTOR[e]}, mkECase {base} {exported} {impl_x} {dref})")
                 metas.append({"engine": e, "via": "df.sql(dialect=" + x + ")", "dialect": x, "ent": dict(sr, exc=sr.get("error"), statements=[
                     {"parse": sr["parse"], "fixed_point": sr["fixed_point"], "sql": sr.get("text"), "rerendered": sr.get("rerendered")}]),
                               "steps": steps, "mode": mode, "table": c["table"]})
@@ -315,8 +315,8 @@ def run(ctx: core.Ctx):
     t2_fail, model_fail, reader_notes = [], [], []
     for it, m, r in zip(items, metas, res):
         if r is None or len(r) != 7 or "?" in r:
-            if r is not None and "?" in r:
-                ctx.broken("T3:engine-has-no-cfg", f"{m['engine']}: cfg_of is None (an engine overrides a core method)")
+            if r is not None and "?" in r and not any(b["name"] == "T3:engine-has-no-cfg:" + m["engine"] for b in ctx.brokens):
+                ctx.broken("T3:engine-has-no-cfg:" + m["engine"], f"{m['engine']}: cfg_of is None (the engine package overrides a core method)")
             continue
         t2 = {"1": True, "0": False, "2": None}[r[0]]
         em = {"1": True, "0": False, "2": None}[r[1]]
@@ -469,7 +469,28 @@ def compare_probes(ctx, results, duck):
     return out
 
 
+def function_outcome(f, d) -> str:
+    """agree | differ | rejected | duck-unsupported : engine value (through the reader) vs DuckDB session value"""
+    if d is None or d["exc"]:
+        return "duck-unsupported"
+    if f["exc"]:
+        return "rejected"
+    same = ([pyval(x) for x in f["rows"]] == [pyval(x) for x in d["rows"]]
+            and [c.lower() for c in f["cols"]] == [c.lower() for c in d["cols"]])
+    return "agree" if same else "differ"
+
+
+def load_baseline():
+    path = os.path.join(core.VERIF, "oracle", "c12_function_baseline.json")
+    try:
+        with open(path) as fh:
+            return json.load(fh)["outcomes"]
+    except OSError:
+        return {}
+
+
 def compare_functions(ctx, results, duck):
+    baseline = load_baseline()
     dref = {f["fn"]: f for f in duck["functions"]}
     out = {"compared": 0, "agree": 0, "per_engine": {}, "same_tree_disagreements(sqlglot/reader)": [], "engine_branch_disagreements(undecided)": [],
            "not_supported_on_duckdb": 0}
@@ -497,6 +518,16 @@ def compare_functions(ctx, results, duck):
                 pe["agree"] += 1
                 continue
             pe["rejected" if f["exc"] else "differ"] += 1
+            if baseline.get(e, {}).get(f["fn"]) == "agree":
+                # on the unchanged tree this function's value agreed with the DuckDB session through the same reader
+                ctx.deviation(f"C12/{e}/function-regression:{f['fn']}",
+                              f"[{e}] F.{f['fn']}: " + ("the engine (dialect reader) now rejects the statement" if f["exc"] else
+                                                        "the value now differs from the DuckDB session") +
+                              " (it agreed in the recorded baseline of the unchanged tree)",
+                              {"engine": e, "function": f["fn"], "table": "t1", "rows": c01.TABLES["t1"], "engine_exception": f["exc"],
+                               "engine_rows": (f["rows"] or [])[:4], "duckdb_rows": (d["rows"] or [])[:4],
+                               "statement": (f["statements"] or [{}])[-1].get("sql"), "tree_same_as_duckdb_session": f.get("tree") == d.get("tree")})
+                continue
             note = {"engine": e, "function": f["fn"], "exception": (f["exc"] or "")[:160],
                     "engine_rows": (f["rows"] or [])[:2], "duckdb_rows": (d["rows"] or [])[:2],
                     "statement": (f["statements"] or [{}])[-1].get("sql", "")[-300:]}
